@@ -158,6 +158,20 @@ pub fn replay() {
                 let (rc, _, err) = bin.run(&dir, &["conv", "asca", "-r", "x.rsca", "-w", "w.wsca", "-o", "out.json"]);
                 match read_json(&dir.join("out.json")) { Some(j) => if j["words"] != json!(expw) { problems.push(format!("word file read as {}, the documented reader gives {:?}", j["words"], expw)); }, None => problems.push(format!("conv asca wrote no json (exit {rc}): {}", err.trim())) }
                 if !expw.is_empty() { sum.nontrivial += 1; }
+                // run -o on the same word file: one result line per line the reader keeps (a comment-only or blank line stays, as an empty result, wherever it stands - the end of the file included)
+                if !expw.is_empty() {
+                    let g1 = vec![RuleGroup { name: "g".into(), rule: vec!["a > e".into()], description: String::new() }];
+                    let lib = asca::run(&g1, &expw.iter().map(|w| w.to_string()).collect::<Vec<_>>(), &[], &[]);
+                    let (rc2, _, err2) = bin.run(&dir, &["run", "-r", "x.rsca", "-w", "w.wsca", "-o", "res.wsca"]);
+                    let got = std::fs::read_to_string(dir.join("res.wsca")).ok();
+                    sum.count("word_file_run_o", 1);
+                    match (&lib, &got) {
+                        (Ok(l), Some(g)) => if *g != l.join("\n") { problems.push(format!("run -o on the word file wrote {:?}, library returns {:?}", g, l)); },
+                        (Ok(l), None) => problems.push(format!("run -o on the word file wrote nothing (exit {rc2}: {}), library returns {:?}", err2.trim(), l)),
+                        (Err(_), Some(g)) => problems.push(format!("library fails but run -o wrote {:?}", g)),
+                        (Err(_), None) => {}
+                    }
+                }
             }
         }
         let _ = std::fs::remove_dir_all(&dir);
